@@ -16,16 +16,24 @@ func kernelPlan(prop, tier string) []*eng.KernelSpec {
 	var specs []*eng.KernelSpec
 	switch prop {
 	case "C16":
-		depths := []string{"1", "2"}
+		type shape struct{ d, rd string }
+		shapes := []shape{{"1", "0"}, {"2", "1"}}
 		if tier == "thorough" {
-			depths = []string{"1", "2", "3"}
+			// complete depth-3 trees exhausted memory (> 60 GB); depth 3 is explored
+			// with right operands limited to depth 1
+			shapes = append(shapes, shape{"3", "1"})
 		}
-		for _, d := range depths {
+		for _, sh := range shapes {
+			d := sh.d
 			var dn int
 			fmt.Sscanf(d, "%d", &dn)
-			specs = append(specs, &eng.KernelSpec{Prop: "C16", Name: "invertCffConstraint vs constraint.Eval, symbolic tree of depth " + d,
-				PkgDir: "/repo/internal", PkgPath: "go.uber.org/cff/internal", HarnessTxt: h("c16_kernel.go.txt"),
-				Subst: map[string]string{"DEPTH": d}, Entry: "verifKernelC16_" + d, Fuel: 2000000, MaxStack: dn + 4,
+			nm := "invertCffConstraint vs constraint.Eval, symbolic tree of depth " + d
+			if sh.d == "3" {
+				nm += " (right operands of depth <= " + sh.rd + ")"
+			}
+			specs = append(specs, &eng.KernelSpec{Prop: "C16", Name: nm,
+				PkgDir: eng.RepoDir() + "/internal", PkgPath: "go.uber.org/cff/internal", HarnessTxt: h("c16_kernel.go.txt"),
+				Subst: map[string]string{"RDEPTH": sh.rd, "DEPTH": d}, Entry: "verifKernelC16_" + d, Fuel: 2000000, MaxStack: dn + 4,
 				AssertNames: map[int]string{1: "for every tag assignment the rewritten constraint selects the file exactly when the source constraint does with cff flipped"},
 				CoverNames:  map[int]string{1: "tree of shape !((!cff) && _)", 2: "source constraint true", 3: "source constraint false"}})
 		}
@@ -73,7 +81,7 @@ func runKernels(prop, tier, solver string, seed int) (*eng.Evidence, int) {
 			if werr == nil {
 				if okr, out, _ := eng.RunReplay(path); okr {
 					fmt.Printf("VIOLATION property=%s replay=%s\n  what: %s\n%s\n", prop, path, firstLine(bv.what), lastLines(out, 3))
-					ev := &eng.Evidence{PropertyID: prop, Tier: tier, Seed: seed, Level: "other", WallS: time.Since(t0).Seconds(), Violations: 1,
+					ev := &eng.Evidence{PropertyID: prop, Tier: tier, Seed: seed, Level: levelOf(prop), WallS: time.Since(t0).Seconds(), Violations: 1,
 						Coverage: map[string]interface{}{"explanation": "corpus generation: " + bv.what, "evaluations": 1, "distinct_nontrivial": 2, "samples": []interface{}{bv.what}}}
 					return ev, 1
 				}
@@ -110,6 +118,7 @@ func runKernels(prop, tier, solver string, seed int) (*eng.Evidence, int) {
 	exit := 0
 	findings := eng.LoadFindings(filepath.Join(verifDir, "known_findings.json"))
 	var inconclusive []string
+	replaysRun := 0
 	queries, oblig, disch, nontriv, violations := 0, 0, 0, 0, 0
 	var samples []interface{}
 	var kout []interface{}
@@ -156,6 +165,7 @@ func runKernels(prop, tier, solver string, seed int) (*eng.Evidence, int) {
 				continue
 			}
 			cex.Replay = path
+			replaysRun++
 			ok, out, err := eng.RunReplay(path)
 			cex.Output = lastLines(out, 4)
 			switch {
@@ -196,7 +206,7 @@ func runKernels(prop, tier, solver string, seed int) (*eng.Evidence, int) {
 	if !ok {
 		notes = l2Notes
 	}
-	ev := &eng.Evidence{PropertyID: prop, Tier: tier, Seed: seed, Level: "other", WallS: time.Since(t0).Seconds(), Violations: violations,
+	ev := &eng.Evidence{PropertyID: prop, Tier: tier, Seed: seed, Level: levelOf(prop), WallS: time.Since(t0).Seconds(), Violations: violations,
 		Coverage: map[string]interface{}{
 			"explanation":         notes.explanation,
 			"evaluations":         queries,
@@ -208,11 +218,26 @@ func runKernels(prop, tier, solver string, seed int) (*eng.Evidence, int) {
 			"kernels":             kout,
 			"functions_encoded":   enc,
 			"solver":              solver,
-			"trusted_base":        []string{"golang.org/x/tools/go/ssa", "this engine's SSA semantics", "z3 5.1.0"},
+			"trusted_base":        []string{"golang.org/x/tools/go/ssa", "this engine's SSA semantics", "solver: " + solver},
+			"counterexamples_replayed_on_the_real_build": replaysRun,
 		},
 		Assumptions: notes.assumptions,
+	}
+	if ev.Level == "translation_validation" {
+		// one "program" = one corpus flow in one generation mode under one job-order policy
+		ev.Coverage["programs"] = len(specs)
+		ev.Coverage["disagreements_checked"] = replaysRun
 	}
 	fmt.Printf("property=%s layer=L2/K tier=%s kernels=%d queries=%d obligations=%d discharged=%d covers=%d violations=%d wall=%.1fs exit=%d\n",
 		prop, tier, len(specs), queries, oblig, disch, nontriv, violations, time.Since(t0).Seconds(), exit)
 	return ev, exit
+}
+
+// levelOf: the verification level recorded in the evidence of an L2/K check
+// (the same category MANIFEST.json claims).
+func levelOf(prop string) string {
+	if prop == "C20" {
+		return "translation_validation"
+	}
+	return "other"
 }
